@@ -228,6 +228,50 @@ def rule_timer(P):
     return r
 
 
+def rule_id_bucket(P):
+    """in-flight requests are found by transaction id through req_heads[id % n]: a request's id may change only while the request is in no bucket, and it must be (re)inserted under the
+    new id before anything else happens to it"""
+    r = Rule("C34-id-bucket", "K3/K5", "a transaction id is stored into a request only while it is linked in no bucket (new, or just removed from its list), and the request is then inserted "
+             "under the new id (or handed to request_submit) on every path", floor=3)
+    sites = []
+    for f in P.fns_in("evdns.c"):
+        if f.name == "request_trans_id_set":
+            continue
+        for el in f.calls("request_trans_id_set"):
+            sites.append((f, el, strip(el.e[2][0]), el.e[2][1]))
+        for el, lhs, op, rhs in f.stores():
+            if fields_of(lhs)[-1:] == ["request.trans_id"] and not is_e(strip(rhs), "int") and is_e(strip(lhs), "fld"):
+                sites.append((f, el, strip(strip(lhs)[1]), rhs))
+    for f, el, rq, val in sites:
+        if not is_e(rq, "var"):
+            r.brk("%s: request expression not a variable at %s" % (f.name, el.where()))
+            continue
+        rv = rq[1]
+        def on_req(x, names):
+            return x.e[0] == "call" and callee_name(x.e) in names and any(is_e(strip(a), "var") and strip(a)[1] == rv for a in x.e[2])
+        # (b) the request is in no bucket here
+        fresh = [d for d, rhs in f.var_stores(rv) if rhs is not None and any(is_e(q, "call") and callee_name(q) in ("request_new", "event_mm_calloc_", "event_mm_malloc_") for q in walk(rhs))]
+        removed = [x for x in f.elems() if on_req(x, ("evdns_request_remove",)) and f.pos_dominates(x.pos(), el.pos())]
+        unlinked = bool(removed) or any(f.pos_dominates(d.pos(), el.pos()) for d in fresh)
+        # (a) afterwards it is inserted under the new id, or submitted; waived for the function that creates the request and returns it
+        creator = any(f.pos_dominates(d.pos(), el.pos()) and any(is_e(q, "call") and callee_name(q) in ("event_mm_calloc_", "event_mm_malloc_") for q in walk(rhs)) for d, rhs in f.var_stores(rv) if rhs is not None)
+        w = None
+        if not creator:
+            w = f.exit_reachable_avoiding(el.pos(), lambda x: on_req(x, ("evdns_request_insert", "request_submit")))
+        r.inst((f.name, el.n), {"fn": f.name, "site": el.where(), "request": rv, "value": show(val)[:50], "in_no_bucket_here": unlinked, "creates_the_request": creator,
+                                "exit_without_insert": (w.where() if hasattr(w, "where") else "end of function") if w else None})
+        if not unlinked:
+            r.bad("K5:%s:id-changed-in-bucket" % f.name, el.where(), f.name,
+                  "the transaction id of `%s` is replaced while the request may be linked in the bucket of its old id (no evdns_request_remove before, not a new request): the answer to the new id "
+                  "is not found, the id can be picked again for another request, and finishing the request unlinks it through the wrong list head" % rv)
+        elif w:
+            r.bad("K3:%s:new-id-not-inserted" % f.name, el.where(), f.name, "after the new transaction id is stored the function can return (%s) without inserting the request under it" %
+                  (w.where() if hasattr(w, "where") else "falls off its end"))
+    if len(sites) < 3:
+        r.brk("only %d transaction-id stores found" % len(sites))
+    return r
+
+
 def run(ctx, config):
     P = ctx.prog(UNITS, config)
-    return [rule_ids(P), rule_pairing(P), rule_pending(P), rule_teardown(P), rule_timer(P)]
+    return [rule_ids(P), rule_pairing(P), rule_pending(P), rule_teardown(P), rule_timer(P), rule_id_bucket(P)]
